@@ -3,7 +3,7 @@ from corr import kern_family
 from checks import _sym
 from oracles import c02 as oracle
 
-GEN = ["Const", "Tol", "CylSegGen"] + _sym.GEN
+GEN = ["Const", "Tol", "CylSegGen", "ExcSync", "InOut"] + _sym.GEN  # ExcSync: the setters' constant / operator / skeletons; InOut: which core functions take `in_out`
 LEAN_TARGETS = ["MagpyVerif.Props.C02", "MagpyVerif.Gen.CylSegGen"] + _sym.LEAN_TARGETS  # CylSegGen: the regenerated CylinderSegment translation and its `sync_*` theorems against the frozen model
 PROPS = ["MagpyVerif.Props.C02"] + _sym.PROPS
 
@@ -11,7 +11,7 @@ PROPS = ["MagpyVerif.Props.C02"] + _sym.PROPS
 def run(ctx, model_ok):
     _sym.run(ctx, ctx.scale(140, 4000))
     if ctx.driver_ok:
-        st = kern_family.run_stream(ctx, ctx.scale(800, 40000))
+        st = kern_family.run_stream(ctx, ctx.scale(1100, 55000), with_in_out=True)
         ctx.cov["evaluations"] = st["rows"]
         ctx.cov["distinct_nontrivial"] = st["nonzero_rows"] + sum(st["branch"].values())
         ctx.cov["rule"] = ("rows cycle over dipole / sphere / straight segment / cuboid masks / ... / cylinder / cylinder masks, scale 1e-3..1e3, observers stratified "
@@ -31,6 +31,17 @@ def run(ctx, model_ok):
     if ctx.driver_ok:
         from corr import trimesh_family as _tf
         ctx.cov["correspondence_trimesh_inside"] = _tf.run_inside_stream(ctx, ctx.scale(150, 5000))
+    if ctx.driver_ok:
+        # the keyword in_out on whole TriangularMesh batches (through getBH_level1), the excitation state machine on real magnet
+        # objects (bit-exact), getJ / getM of rotated Cuboids read by rotated sensors (exact, pipeline model)
+        from corr import exc_family, level2_family
+        ctx.cov["correspondence_trimesh_in_out"] = trimesh_family.run_batch_stream(ctx, ctx.scale(80, 2500), with_in_out=True)
+        st = exc_family.run_stream(ctx, ctx.scale(300, 8000))
+        st.pop("samples", None)
+        ctx.cov["correspondence_excitation"] = st
+        st = level2_family.run_jm_stream(ctx, ctx.scale(150, 4000))
+        st.pop("samples", None)
+        ctx.cov["correspondence_level2_jm"] = st
     budget = 10 if len(ctx.broken) else 1
     fails, ost = oracle.sweep(ctx, ctx.scale(200, 6000) * budget)
     ctx.failing += fails
@@ -54,8 +65,14 @@ def run(ctx, model_ok):
                             "CylinderSegment: no geometric predicate; no theorem that bhjmCylSeg returns a value (cylseg_consistent / cylseg_internal_consistent are conditional on `some`; "
                             "Circle and Cylinder are unconditional via Props/C15: circle_consistent_total, cylinder_consistent_total)",
                             "Dipole at its own position: no r = 0 branch in the model; dipole_consistent at x = 0 is about Lean's x/0 = 0",
-                            "in_out = 'inside' / 'outside' overrides, the rotation of J into the observer frame (composition with C03) and the polarization/magnetization setter relation over "
-                            "assignment histories (DESIGN §6 `excitation_sync`) have no model and no theorem: oracle only",
+                            "in_out: modelled as coded (Model/InOut.lean) — only BHJM_magnet_tetrahedron and BHJM_magnet_trimesh receive the keyword (regenerated table of signatures), for the other four "
+                            "magnet classes getBH_level1 removes it, so 'inside' does NOT make J the polarization everywhere for Cuboid / Cylinder / CylinderSegment / Sphere (witness "
+                            "cuboid_inside_override_is_ignored; truthful overrides change nothing: *_inout_truthful); the value of in_out is validated nowhere (a misspelt value means 'auto' for a Tetrahedron, "
+                            "'outside' for a TriangularMesh: InOut.other). excitation_sync: full-strength statement with the EXPORTED mu_0 is false on this tree (excitation_sync_exported_mu0_partial, "
+                            "setter_constant_is_not_exported = the known finding); proved with the setters' own constant. Not represented in the state machine: which values check_format_input_vector refuses "
+                            "(C17), in-place edits of the arrays the getters hand out (obj.polarization[2] = x changes _polarization only), numpy's floating-point warnings (with ALL warnings escalated an "
+                            "overflowing conversion raises between the two attribute writes: stream field observed_not_modelled). J in the observer frame: theorem over the pipeline model for ONE magnet and "
+                            "right-handed sensors, local-frame J = indicator·polarization as hypothesis (discharged per class by *_j_is_indicator; stream level2-jm: Cuboids, observers off the faces)",
                             "theorems stated at mu0R use 4*pi*1e-7, which is not the exported mu_0 (scipy's 1.25663706127e-6); the generic-mu theorems are the ones that matter"]
     ctx.assumptions += ["wrapper dispatch modelled by hand with the core as a parameter; cuboid masks, sphere, dipole, segment, triangle, tetrahedron, circle, cylinder ports tied by the kern stream"]
 
